@@ -225,6 +225,7 @@ def _worker_init(initfn, initargs):
     import gc
 
     gc.disable()
+    gc.freeze()  # objects inherited from the parent (case lists ...) are never traversed again
     if initfn is not None:
         initfn(*initargs)
 
